@@ -155,7 +155,7 @@ impl Edit {
             Edit::MetaSignersAdd => "metadata_signers_add".into(),
             Edit::ParamK(d) => format!("parameters_k{d:+}"),
             Edit::ParamM(d) => format!("parameters_m{d:+}"),
-            Edit::ParamPhi(d) => format!("parameters_phi_f{}", if d.abs() < 1e-9 { "_below_fixed_precision".to_string() } else { format!("{d:+}") }),
+            Edit::ParamPhi(d) => format!("parameters_phi_f{}", if d.abs() < 1e-9 { "_below_fixed_precision".to_string() } else if d.abs() >= 256.0 { format!("{d:+}_outside_the_fixed_point_range") } else { format!("{d:+}") }),
             Edit::ParamsAdv => "parameters_adversarial".into(),
             Edit::PmEdit(k, b) => format!("message_part_edit[{}]{}", key_name(k), sm(b)),
             Edit::PmRemove(k, b) => format!("message_part_remove[{}]{}", key_name(k), sm(b)),
@@ -210,6 +210,9 @@ pub fn edits_for(c: &Certificate) -> Vec<Edit> {
         Edit::ParamPhi(1e-12),
         Edit::ParamPhi(0.04),
         Edit::ParamPhi(-0.04),
+        Edit::ParamPhi(256.0),
+        Edit::ParamPhi(512.0),
+        Edit::ParamPhi(-256.0),
         Edit::ParamsAdv,
         Edit::SmRandom,
         Edit::SmOfOther,
@@ -322,7 +325,8 @@ pub fn apply_edit(c: &Certificate, e: &Edit, ctx: &Ctx, rng: &mut ChaCha20Rng) -
         Edit::ParamM(d) => c.metadata.protocol_parameters.m = c.metadata.protocol_parameters.m.checked_add_signed(*d)?,
         Edit::ParamPhi(d) => {
             let p = c.metadata.protocol_parameters.phi_f + d;
-            if !(p > 0.0 && p <= 1.0) || p == c.metadata.protocol_parameters.phi_f {
+            // |d| >= 256: a value outside the fixed-point range the parameters are hashed at
+            if (!(p > 0.0 && p <= 1.0) && d.abs() < 256.0) || p == c.metadata.protocol_parameters.phi_f {
                 return None;
             }
             c.metadata.protocol_parameters.phi_f = p
